@@ -16,7 +16,7 @@ from vlib.ref_tor import TorModel, admissible_prefixes
 
 prelude.install()
 from txtorcon.interface import ICircuitListener, IStreamListener  # noqa: E402
-from harness.c07_state import new_state, deliver  # noqa: E402
+from harness.c07_state import new_state, deliver, SNAPSHOTS  # noqa: E402
 
 PROPERTY = 'C08'
 ASSUMPTIONS = [
@@ -80,9 +80,13 @@ def _expand(entry):
     return entry
 
 
-def _listeners(events, add_at, per_at, un_at):
+def _listeners(events, add_at, per_at, un_at, prefix=()):
     state, p, t = new_state()
     model = TorModel()
+    with api.no_tracing():      # concrete prefix, delivered as events before any listener is attached
+        for e in prefix:
+            kindname, payload = model.apply(e)
+            deliver(state, kindname, payload)
     g1 = Rec()
     g2 = Rec()
     per = Rec()
@@ -132,7 +136,7 @@ def _listeners(events, add_at, per_at, un_at):
     return ''
 
 
-_E = 28
+_E = 30
 
 
 _P2 = [{'e1': a, 'e2': b} for (a, b) in admissible_prefixes(2)]
@@ -148,6 +152,26 @@ def c08_listeners3(e1: int, e2: int, e3: int, add_at: int, per_at: int, un_at: i
     un_at = api.pick(un_at, 1, 3)
     assume(per_at <= un_at)
     return _listeners([e1, e2, e3], add_at, per_at, un_at)
+
+
+def _after_parts(snaps):
+    out = []
+    for sn in snaps:
+        m = TorModel()
+        for e in SNAPSHOTS[sn]:
+            m.apply(e)
+        for e1 in range(m.nevents()):
+            if m.enabled(e1):
+                out.append({'snap': sn, 'e1': e1})
+    return out
+
+
+@cond(quick=dict(parts=_after_parts([2, 4]), budget=150), thorough=dict(parts=_after_parts(range(1, len(SNAPSHOTS))), budget=600))
+def c08_listeners_after(snap: int, e1: int, e2: int, e3: int, add_at: int) -> str:
+    """3 events after a concrete prefix that leaves built circuits with attached streams (re-attachment, circuit closing
+    under a stream, ...); listeners attached to already existing objects"""
+    add_at = api.pick(add_at, 0, 3)
+    return _listeners([e1, e2, e3], add_at, 99, 99, SNAPSHOTS[snap])
 
 
 @cond(thorough=dict(parts=_P3, budget=300))
@@ -255,7 +279,7 @@ def _stream_waits(ops):
     try:
         for op in ops:
             if op <= 4:
-                ev = 6 + [0, 1, 4, 6, 7][op]
+                ev = 6 + [0, 1, 4, 6, 7][op]      # stream events start at 6 when ncirc=1
                 assume(model.enabled(ev))
                 kind, payload = model.apply(ev)
                 deliver(state, kind, payload)
